@@ -51,7 +51,7 @@ class Prop:
             "result that needed >= 2 terms; distinct = distinct sha256 of the event log")
     probes = ["k2", "k3", "k4", "herm_adjpair", "herm_sandwich", "herm_nonadjoint", "domain_float", "domain_tracer",
               "result_one", "result_zero", "result_value", "multi_term_result", "discipline_checked", "highest_order_checked", "highest_order_truth_checked",
-              "op_array", "op_view", "repeat_cached", "op_mul", "op_rmul", "known0_pattern", "view_factor", "twin_product", "known_finding_signature_hits"]
+              "op_array", "op_view", "repeat_cached", "op_mul", "op_rmul", "known0_pattern", "view_factor", "twin_product", "late_eval_factor", "tiny_scale", "known_finding_signature_hits"]
     components_real = ["pymablock.series.cauchy_dot_product, product_by_order, BlockSeries"]
     components_stub = ["factor series eval callbacks (simulator-owned tables, call log)", "element multiplication wrapper (logging)",
                        "tracer element type (exact free *-algebra)"]
@@ -95,7 +95,9 @@ class Prop:
             elif x < 0.4:
                 known0 = [[r.randrange(dims[k]), r.randrange(dims[k + 1])] for _ in range(r.randint(1, 3))]
             factors.append({"pz": r.choice([0.0, 0.2, 0.5, 0.7]), "start_zero": r.random() < 0.3,
-                            "ones": r.random() < 0.3, "fseed": r.randrange(1 << 30), "known0": known0})
+                            "ones": r.random() < 0.3, "fseed": r.randrange(1 << 30), "known0": known0,
+                            "late_eval": r.random() < 0.2,  # BlockSeries(data=...) first, `.eval = ...` assigned afterwards
+                            "scale": r.choice([0, 0, 0, 3, 6, 9, 12])})  # float values of magnitude 10**-scale
         cap = {1: 4, 2: 3, 3: 2}[ninf]
         case = {"K": K, "ninf": ninf, "dims": dims, "herm": herm, "domain": domain, "op": opname, "factors": factors,
                 "sizes": [r.choice([1, 2]) for _ in range(3)], "cap": cap}
@@ -162,7 +164,7 @@ class Prop:
         def fresh_value(k, idx, rg, rows, cols):
             if domain == "tracer":
                 return T.gen(f"{NAMES[k]}{list(idx)}")
-            return rg.normal(size=(rows, cols)) + 1j * rg.normal(size=(rows, cols))
+            return (rg.normal(size=(rows, cols)) + 1j * rg.normal(size=(rows, cols))) * 10.0 ** (-case["factors"][k].get("scale", 0))
 
         def adj(v):
             if v is zero or v is one:
@@ -221,6 +223,7 @@ class Prop:
         K, ninf, dims, herm = case["K"], case["ninf"], case["dims"], case["herm"]
         self._case = case
         tables = self._tables(case, zero, one)
+        self._mag = [0.0]
         events = []
         counters = {}
         stats = {}
@@ -229,6 +232,8 @@ class Prop:
             counters[k] = counters.get(k, 0) + n
 
         bump(f"k{K}")
+        if case["domain"] == "float" and any(f.get("scale") for f in case["factors"]):
+            bump("tiny_scale")
         bump("domain_" + case["domain"])
         if herm != "none":
             bump("herm_" + herm)
@@ -263,8 +268,13 @@ class Prop:
                     known = [kk for kk in known if kk[0] <= kk[1]] + [(j, i) for i, j in known if i <= j]
                 data = {(i, j, *(0,) * ninf): zero for i, j in known if tables[k].get((i, j, *(0,) * ninf), zero) is zero}
                 bump("known0_pattern")
-            factors.append(BlockSeries(eval=make_eval(k), data=data, shape=(dims[k], dims[k + 1]), n_infinite=ninf,
-                                       name=NAMES[k]))
+            if spec.get("late_eval"):
+                fk = BlockSeries(data=data if data is not None else {}, shape=(dims[k], dims[k + 1]), n_infinite=ninf, name=NAMES[k])
+                fk.eval = make_eval(k)
+                bump("late_eval_factor")
+            else:
+                fk = BlockSeries(eval=make_eval(k), data=data, shape=(dims[k], dims[k + 1]), n_infinite=ninf, name=NAMES[k])
+            factors.append(fk)
         if case["op"] == "rmul":
             base = lambda a, b: b @ a  # noqa: E731
             bump("op_rmul")
@@ -306,9 +316,12 @@ class Prop:
                 violation = {"class": cls, "detail": detail, "info": info or {}}
 
         # ---- reference model
+        mag = self._mag  # sum of the magnitudes of the terms of the last reference sum (float tolerance scale)
+
         def ref(i, j, n):
             result = zero
             nterms = 0
+            mag[0] = 0.0
             for mids in itertools.product(*(range(dims[k]) for k in range(1, K))):
                 chain = (i, *mids, j)
                 for split in splittings(tuple(n), K):
@@ -323,6 +336,8 @@ class Prop:
                         for v in vals[1:]:
                             term = base(term, v)
                     nterms += 1
+                    if isinstance(term, np.ndarray):
+                        mag[0] += float(np.max(np.abs(term), initial=0.0))
                     if result is zero:
                         result = term
                     elif term is one or result is one:
@@ -541,7 +556,7 @@ class Prop:
             if nterms >= 2:
                 bump("multi_term_result")
                 self._rich = True
-        if not same(norm(got), norm(want), stats):
+        if not same(norm(got), norm(want), stats, floor=self._mag[0] if self._case["domain"] == "float" else 1.0):
             if self._known_sig(c) and "C18/hermitian-halfsum-nonadjoint" in getattr(self, "known_ids", ()):
                 bump("known_finding_signature_hits")
                 return True
